@@ -263,6 +263,17 @@ func (a *align) Clear() {
 	a.length = -1
 }
 
+// FilterLength removes sequences whose length is <minlength or >maxlength
+// (see SeqBag.FilterLength). An alignment left without any sequence has no
+// length any more, as after Clear()
+func (a *align) FilterLength(minlength, maxlength int) (err error) {
+	err = a.seqbag.FilterLength(minlength, maxlength)
+	if a.NbSequences() == 0 {
+		a.length = -1
+	}
+	return
+}
+
 // Length returns the current length of the alignment
 func (a *align) Length() int {
 	return a.length
